@@ -678,7 +678,13 @@ impl<'a, T: ?Sized> MutexGuard<'a, T> {
     /// dbg!(MutexGuard::source(&guard));
     /// # })
     /// ```
-    pub fn source(guard: &MutexGuard<'a, T>) -> &'a Mutex<T> {
+    pub fn source(guard: &MutexGuard<'a, T>) -> &'a Mutex<T>
+    where
+        // Required because `MutexGuard` implements `Sync` regardless of whether `T` is `Send`,
+        // but this method hands out `&Mutex<T>`, through which another thread can lock the mutex
+        // and move or drop `T`.
+        T: Send,
+    {
         guard.0
     }
 }
